@@ -261,7 +261,7 @@ func (e *Exec) onMapDelete(fr *Frame, st *State, x ssa.Instruction, mapv, keyv s
 		return
 	}
 	c := e.contractOf(fr.fn)
-	if c == nil || len(c.OnMapDeletes) == 0 {
+	if c == nil || (len(c.OnMapDeletes) == 0 && len(c.NoMapDeletes) == 0) {
 		return
 	}
 	ld, ok := mapv.(*ssa.UnOp)
@@ -277,6 +277,12 @@ func (e *Exec) onMapDelete(fr *Frame, st *State, x ssa.Instruction, mapv, keyv s
 		return
 	}
 	fname := stt.s.Field(fa.Field).Name()
+	for _, nd := range c.NoMapDeletes {
+		if nd == fname {
+			e.confineHit["nomapdel:"+nd] = true
+			e.oblige(st, "no-map-delete", nd, Not(st.pc), e.posOf(x))
+		}
+	}
 	mt, ok := mapv.Type().Underlying().(*types.Map)
 	if !ok {
 		return
